@@ -136,6 +136,10 @@ pub struct Ctx {
     pub verif_dir: PathBuf,
     /// multiplies the number of runs of a tier (VERIF_SCALE, e.g. 0.1 for smoke tests)
     pub scale: f64,
+    /// Some(rate): this process is the skewed-clock slice of a check (child of the process that
+    /// runs the check proper): its clock runs `rate` times fast; it writes a slice summary
+    /// instead of the evidence file
+    pub slice_rate: Option<u64>,
 }
 
 pub const DEFAULT_SEED: u64 = 20260923;
@@ -169,6 +173,7 @@ impl Ctx {
             workers,
             verif_dir,
             scale,
+            slice_rate: if std::env::var("VERIF_SLICE").is_ok() { Some(crate::clock::rate()) } else { None },
         }
     }
     pub fn tier(&self) -> &'static str {
@@ -182,6 +187,12 @@ impl Ctx {
         let n = if self.quick { quick } else { thorough };
         ((n as f64 * self.scale) as u64).max(1)
     }
+}
+
+/// A wall-clock budget for harness-side work (minimisation), in seconds of *real* time whatever the
+/// rate of the process's clock.
+pub fn deadline_after(secs: u64) -> std::time::Instant {
+    std::time::Instant::now() + std::time::Duration::from_secs(secs.saturating_mul(crate::clock::rate()))
 }
 
 /// Deterministic parallel fold over run indices 0..n. Chunks of fixed size are handed out in
